@@ -157,7 +157,7 @@ def run(ctx, chk):
         tv = calls_named(r, "serde_json::to_vec") + calls_named(r, "serde_json::to_string") + calls_named(r, "serde_json::ser::to_vec")
         okt = len(tv) == 1 and argv(tv[0])[0] == PARAM1_REF
         chk.require(okt, "S4", b.defp + ":whole-snapshot", b.span, "the hashed payload is not serde_json::to_vec(<the whole snapshot parameter>): %s" % [short(e[2][0]) for e in tv], describe_path(r))
-        up = calls_named(r, "::update")
+        up = calls_named(r, "::update") + calls_named(r, "::chain_update")
         fin = calls_named(r, "::finalize")
         if not up and not fin:
             # one-shot form: Sha256::digest(&payload)
